@@ -410,17 +410,36 @@ def _str_endswith(interp, s, suffix, *a):
     return SymBool(z3.SuffixOf(_s(suffix), s.term))
 
 
+def _norm_start(interp, s, start):
+    """Python's clamping of a negative start index (decided by a branch so that the term stays simple)"""
+    if not is_sym(start):
+        if start >= 0:
+            return start
+    p = interp.path
+    st = SymInt(_i(start))
+    if p.branch(st < 0):
+        st = st + s.length()
+        if p.branch(st < 0):
+            return 0
+    return st
+
+
+def _index_of(interp, s, sub, start):
+    st = _norm_start(interp, s, start)
+    r = SymInt(z3.IndexOf(s.term, _s(sub), _i(st)))
+    # facts about IndexOf the sequence solver is slow to find: -1 <= r, and a hit lies inside s, not before start
+    n = s.length()
+    interp.path.lemma(land(r >= -1, r <= n))
+    interp.path.lemma(lor(r < 0, land(r >= st, r + SymStr(_s(sub)).length() <= n)))
+    return r
+
+
 def _str_index(interp, s, sub, start=0, *a):
     if a:
         raise Unsupported('index with end')
-    p = interp.path
-    n = s.length()
-    st = start
-    if is_sym(st) or st < 0:
-        st = ite(SymInt(_i(st)) < 0, ite(SymInt(_i(st)) + n < 0, 0, SymInt(_i(st)) + n), st)
-    r = SymInt(z3.IndexOf(s.term, _s(sub), _i(st)))
+    r = _index_of(interp, s, sub, start)
     # z3's IndexOf returns -1 when start > len or not found
-    if p.branch(r < 0):
+    if interp.path.branch(r < 0):
         raise ValueError('substring not found')
     return r
 
@@ -428,11 +447,7 @@ def _str_index(interp, s, sub, start=0, *a):
 def _str_find(interp, s, sub, start=0, *a):
     if a:
         raise Unsupported('find with end')
-    n = s.length()
-    st = start
-    if is_sym(st) or st < 0:
-        st = ite(SymInt(_i(st)) < 0, ite(SymInt(_i(st)) + n < 0, 0, SymInt(_i(st)) + n), st)
-    return SymInt(z3.IndexOf(s.term, _s(sub), _i(st)))
+    return _index_of(interp, s, sub, start)
 
 
 def _str_replace(interp, s, old, new, *a):
@@ -681,6 +696,30 @@ def m_bool(interp, x=False):
     if isinstance(x, (Sym, SymList)):
         return interp.truth_term(x)
     return bool(x)
+
+
+def m_isfinite(interp, x):
+    if isinstance(x, SymFloat):
+        return SymBool(z3.Not(z3.Or(z3.fpIsNaN(x.term), z3.fpIsInf(x.term))))
+    if isinstance(x, (SymInt, SymBool)):
+        return True
+    return math.isfinite(x)
+
+
+def m_isnan(interp, x):
+    if isinstance(x, SymFloat):
+        return SymBool(z3.fpIsNaN(x.term))
+    if isinstance(x, (SymInt, SymBool)):
+        return False
+    return math.isnan(x)
+
+
+def m_isinf(interp, x):
+    if isinstance(x, SymFloat):
+        return SymBool(z3.fpIsInf(x.term))
+    if isinstance(x, (SymInt, SymBool)):
+        return False
+    return math.isinf(x)
 
 
 def m_round(interp, x, ndigits=None):
@@ -1047,7 +1086,8 @@ def m_join(interp, sep, it):
 _TABLE = {
     id(builtins.len): m_len, id(builtins.abs): m_abs, id(builtins.isinstance): m_isinstance,
     id(builtins.int): m_int, id(builtins.float): m_float, id(builtins.str): m_str, id(builtins.bool): m_bool,
-    id(builtins.round): m_round, id(math.floor): m_floor, id(builtins.min): m_min, id(builtins.max): m_max,
+    id(builtins.round): m_round, id(math.isfinite): m_isfinite, id(math.isnan): m_isnan, id(math.isinf): m_isinf,
+    id(math.floor): m_floor, id(builtins.min): m_min, id(builtins.max): m_max,
     id(builtins.sum): m_sum, id(builtins.all): m_all, id(builtins.any): m_any, id(builtins.range): m_range,
     id(builtins.list): m_list, id(builtins.tuple): m_tuple, id(builtins.enumerate): m_enumerate,
     id(builtins.reversed): m_reversed, id(builtins.ord): m_ord, id(builtins.chr): m_chr,
